@@ -297,6 +297,36 @@ var builtinTypes = map[string]gschema.NamedType{
 	"Int": graphql.IntType, "Float": graphql.FloatType, "String": graphql.StringType, "Boolean": graphql.BooleanType, "ID": graphql.IDType,
 }
 
+// defaultFor: the default value for an input value of the given type — a function of the type only;
+// nil for list-typed and input-object-typed values.
+func defaultFor(spec *Spec, typ string) interface{} {
+	t := parseType(typ)
+	if t.kind == 2 {
+		t = t.inner
+	}
+	if t.kind != 0 {
+		return nil
+	}
+	switch t.name {
+	case "Int":
+		return 7
+	case "String":
+		return "dflt"
+	case "Boolean":
+		return true
+	case "ID":
+		return "id0"
+	case "Float":
+		return 1.5
+	}
+	if ts := spec.find(t.name); ts != nil && ts.Kind == "enum" && len(ts.Values) > 0 {
+		return ts.Values[0]
+	} else if ts != nil && ts.Kind == "scalar" && ts.Builtin == "" {
+		return "sc0"
+	}
+	return nil
+}
+
 // buildSchema constructs the library objects and calls the real schema.New. A *buildError means the
 // spec cannot even be expressed with the library's Go types (dangling reference, wrong kind in an
 // interface / member list, duplicate name); any other error is schema.New's rejection.
@@ -425,6 +455,18 @@ func buildDefinition(spec *Spec, w *world) (def *graphql.SchemaDefinition, named
 		}
 		return out
 	}
+	// setDefaults gives the named input values a default (scalar / enum typed, non-list ones only)
+	setDefaults := func(defs map[string]*graphql.InputValueDefinition, as []ArgSpec, names []string) {
+		for _, dn := range names {
+			for _, a := range as {
+				if a.Name == dn && defs[a.Name] != nil {
+					if dv := defaultFor(spec, a.Type); dv != nil {
+						defs[a.Name].DefaultValue = dv
+					}
+				}
+			}
+		}
+	}
 	connPrefixes := map[string]bool{}
 	connIfaces := map[string]*graphql.InterfaceType{}
 	var connIfaceTypes []graphql.NamedType
@@ -456,6 +498,7 @@ func buildDefinition(spec *Spec, w *world) (def *graphql.SchemaDefinition, named
 				continue
 			}
 			def := &graphql.FieldDefinition{Type: resolveT(parseType(f.Type)), RequiredFeatures: reqSet(f.Req), Arguments: mkArgs(f.Args, t.Name+"."+f.Name)}
+			setDefaults(def.Arguments, f.Args, f.ArgDefaults)
 			if f.Deprecated {
 				def.DeprecationReason = "no longer used"
 			}
@@ -605,6 +648,7 @@ func buildDefinition(spec *Spec, w *world) (def *graphql.SchemaDefinition, named
 			}
 		case *graphql.InputObjectType:
 			nt.Fields = mkArgs(t.Inputs, t.Name)
+			setDefaults(nt.Fields, t.Inputs, t.InputDefaults)
 		}
 		additional = append(additional, named[t.Name])
 	}
@@ -621,42 +665,7 @@ func buildDefinition(spec *Spec, w *world) (def *graphql.SchemaDefinition, named
 			Arguments: mkArgs(d.Args, "@"+d.Name),
 			Locations: []gschema.DirectiveLocation{gschema.DirectiveLocationField, gschema.DirectiveLocationFragmentSpread, gschema.DirectiveLocationInlineFragment},
 		}
-		for _, dn := range d.Defaults {
-			for _, a := range d.Args {
-				if a.Name != dn {
-					continue
-				}
-				t := parseType(a.Type)
-				if t.kind == 2 {
-					t = t.inner
-				}
-				if t.kind != 0 {
-					continue // list-typed: no default
-				}
-				var dv interface{}
-				switch t.name {
-				case "Int":
-					dv = 7
-				case "String":
-					dv = "dflt"
-				case "Boolean":
-					dv = true
-				case "ID":
-					dv = "id0"
-				case "Float":
-					dv = 1.5
-				default:
-					if ts := spec.find(t.name); ts != nil && ts.Kind == "enum" && len(ts.Values) > 0 {
-						dv = ts.Values[0]
-					} else if ts != nil && ts.Kind == "scalar" && ts.Builtin == "" {
-						dv = "sc0"
-					}
-				}
-				if dv != nil {
-					dd.Arguments[a.Name].DefaultValue = dv
-				}
-			}
-		}
+		setDefaults(dd.Arguments, d.Args, d.Defaults)
 		if d.Filter {
 			dname := d.Name
 			dd.FieldCollectionFilter = func(arguments map[string]interface{}) bool {
